@@ -234,8 +234,7 @@ func ReadPatchFile(filename string) (Diff, error) {
 //	  {"op":"add","path":"/foo","value":"baz"}
 //	]
 func ReadPatchString(s string) (Diff, error) {
-	var patch []patchElement
-	err := json.Unmarshal([]byte(s), &patch)
+	patch, err := readPatchElements(s)
 	if err != nil {
 		return nil, err
 	}
@@ -284,6 +283,60 @@ func ReadPatchString(s string) (Diff, error) {
 			}
 		}
 	}
+}
+
+// readPatchElements decodes a JSON Patch document (RFC 6902 section 3
+// and 4): an array of objects, each with a string "op" member, a string
+// "path" member and, for "add" and "test", a "value" member (which may
+// hold null). Member names are matched exactly. Other members are
+// ignored. When a name appears more than once in an object the last
+// one is used, as encoding/json does.
+func readPatchElements(s string) ([]patchElement, error) {
+	var raw []map[string]json.RawMessage
+	err := json.Unmarshal([]byte(s), &raw)
+	if err != nil {
+		return nil, err
+	}
+	if raw == nil {
+		return nil, fmt.Errorf("invalid JSON Patch: expected an array of operations")
+	}
+	patch := make([]patchElement, 0, len(raw))
+	for i, m := range raw {
+		if m == nil {
+			return nil, fmt.Errorf("invalid JSON Patch: operation %v is not an object", i)
+		}
+		var e patchElement
+		for _, member := range []struct {
+			name string
+			dst  *string
+		}{{"op", &e.Op}, {"path", &e.Path}} {
+			r, ok := m[member.name]
+			if !ok {
+				return nil, fmt.Errorf("invalid JSON Patch: operation %v has no %q", i, member.name)
+			}
+			var v interface{}
+			err := json.Unmarshal(r, &v)
+			if err != nil {
+				return nil, err
+			}
+			str, ok := v.(string)
+			if !ok {
+				return nil, fmt.Errorf("invalid JSON Patch: %q of operation %v is not a string", member.name, i)
+			}
+			*member.dst = str
+		}
+		r, ok := m["value"]
+		if ok {
+			err := json.Unmarshal(r, &e.Value)
+			if err != nil {
+				return nil, err
+			}
+		} else if e.Op == "add" || e.Op == "test" {
+			return nil, fmt.Errorf("invalid JSON Patch: %v operation %v has no value", e.Op, i)
+		}
+		patch = append(patch, e)
+	}
+	return patch, nil
 }
 
 // patchContext holds the test ops which were read as the before and
